@@ -9,7 +9,9 @@ Property theorems only (lemmas: `Spine/RegistryThm.lean`, `Spine/RegistryMore.le
 Models: `Spine.Td` — the composed world: the two registries (`Spine.Reg`), the connected peers
 (`DeviceLocal.remoteDevices`), the writes pending application approval with their timers
 (`FeatureLocal.pendingWriteApprovals`), the client-side bookkeeping of a local client feature
-(`FeatureLocal.subscriptions / bindings`); `Spine.Reg` alone for the registry half; `Spine.ApprDrop` (the first,
+(`FeatureLocal.subscriptions / bindings`); `Spine.Reg` alone for the registry half (an entity is known through its announced features or, `Reg.St.bare`, without
+any; `Reg.removeEntity` / `Td.removeEntity` are the operations — [0] kept, bare entities removed —, `dropEntity` the
+cascade on its domain: announced with features, not [0]); `Spine.ApprDrop` (the first,
 minimal timer model, kept because its theorem is stated over raw event lists). Family `Td.Cfg`:
 `reg.dropBindsAnyPeer` (RemoveBindingsForEntity compares the entity address only), `timersSurvive`
 (CleanWriteApprovalCaches forgets the timers without stopping them), `entityKeepsApprovals` (entity removal leaves
@@ -105,8 +107,8 @@ example :
 
 /-- the registry half alone (model `Reg`, repaired): dropping a peer removes all and only that peer's entries -/
 theorem c10_drop_exact (s : Reg.St) (hs : Reg.Sane s) (p : Nat) :
-    (Reg.dropPeer Reg.Cfg.clean s p).subs = s.subs.filter (·.peer ≠ p) ∧
-    (Reg.dropPeer Reg.Cfg.clean s p).binds = s.binds.filter (·.peer ≠ p) :=
+    (Reg.removePeer Reg.Cfg.clean s p).subs = s.subs.filter (·.peer ≠ p) ∧
+    (Reg.removePeer Reg.Cfg.clean s p).binds = s.binds.filter (·.peer ≠ p) :=
   Reg.c10_drop_exact s hs p
 
 /-- REFUTED on the code as written (known finding `teardown-removes-other-peers-binding`): dropping peer 1 deletes
@@ -114,7 +116,7 @@ theorem c10_drop_exact (s : Reg.St) (hs : Reg.Sane s) (p : Nat) :
 theorem c10_drop_any_peer_refuted :
     let fs : List Reg.Feat := [⟨[1], 1, 1, .client⟩]
     let s : Reg.St := { loc := [⟨[1], 1, 1, .server⟩], rem := fun _ => fs, binds := [⟨1, [1], 1, 2, [1], 1⟩] }
-    (Reg.dropPeer {} s 1).binds = [] :=
+    (Reg.removePeer {} s 1).binds = [] :=
   Reg.c10_drop_any_peer_refutes
 
 /-- … with the consequence in the composed world: peer 2 is no longer served — its write is denied. -/
@@ -127,10 +129,10 @@ theorem c10_drop_leaks_refuted :
     is lost only where `dropBindsAnyPeer` is on and that binding's client entity address is one the dropped peer
     announces too (the region of `c10_drop_any_peer_refuted`). -/
 theorem c10_drop_partial (c : Reg.Cfg) (s : Reg.St) (hs : Reg.Sane s) (p : Nat) :
-    (Reg.dropPeer c s p).subs = s.subs.filter (·.peer ≠ p) ∧
-    (Reg.dropPeer c s p).binds = s.binds.filter
-      (fun e => !(e.peer = p) && !(c.dropBindsAnyPeer && ((s.rem p).map (·.ent)).contains e.cEnt)) :=
-  Reg.dropPeer_any_member c s hs p
+    (Reg.removePeer c s p).subs = s.subs.filter (·.peer ≠ p) ∧
+    (Reg.removePeer c s p).binds = s.binds.filter
+      (fun e => !(e.peer = p) && !(c.dropBindsAnyPeer && (Reg.knownEnts s p).contains e.cEnt)) :=
+  Reg.removePeer_any_member c s hs p
 
 /-! ## clause 1, entities -/
 
@@ -147,6 +149,49 @@ theorem c10_entity_exact (s : Td.St) (p : Nat) (ent : List Nat) (hp : s.alive.co
     (Td.dropEntity Td.Cfg.clean s p ent).cbinds = s.cbinds.filter (fun b => !(b.peer = p && b.ent = ent)) ∧
     (Td.dropEntity Td.Cfg.clean s p ent).alive = s.alive :=
   Td.dropEntity_exact s p ent hp hex
+
+/-- Every member: what one removal entry of a notification does (`Td.removeEntity`, the operation of the family) on
+    the domain of the cascade `Td.dropEntity` — a connected peer, an entity other than [0] announced with features — is
+    that cascade in every component; `c10_entity_exact` describes it for the repaired member. -/
+theorem c10_removal_entry_is_cascade (c : Td.Cfg) (s : Td.St) (p : Nat) (ent : List Nat) (h0 : ent ≠ [0])
+    (hp : s.alive.contains p = true) (hex : ((s.reg.rem p).map (·.ent)).contains ent = true) :
+    (Td.removeEntity c s p ent).reg.subs = (Td.dropEntity c s p ent).reg.subs ∧
+    (Td.removeEntity c s p ent).reg.binds = (Td.dropEntity c s p ent).reg.binds ∧
+    (Td.removeEntity c s p ent).pend = (Td.dropEntity c s p ent).pend ∧
+    (Td.removeEntity c s p ent).armed = (Td.dropEntity c s p ent).armed ∧
+    (Td.removeEntity c s p ent).csubs = (Td.dropEntity c s p ent).csubs ∧
+    (Td.removeEntity c s p ent).cbinds = (Td.dropEntity c s p ent).cbinds ∧
+    (Td.removeEntity c s p ent).alive = (Td.dropEntity c s p ent).alive :=
+  Td.removeEntity_eq_dropEntity c s p ent h0 hp hex
+
+/-- Every member: a removal entry for the device information entity [0] is skipped — nothing changes, the peer keeps
+    its node management and stays reachable (the code from repair 711ee79 on; `dropEntity` at [0] is outside its domain). -/
+theorem c10_device_information_entity_kept (c : Td.Cfg) (s : Td.St) (p : Nat) : Td.removeEntity c s p [0] = s :=
+  Td.removeEntity_zero c s p
+
+/-- Repaired code: an entity that is known WITHOUT features (announced again by an `added` entry that lists none — the
+    entries of its former features are stale but still registered) goes like any other: all and only what refers to
+    that entity of that peer disappears. -/
+theorem c10_bare_entity_exact (s : Td.St) (p : Nat) (ent : List Nat) (h0 : ent ≠ [0]) (hp : s.alive.contains p = true)
+    (hex : ((s.reg.rem p).map (·.ent)).contains ent = false) (hb : (s.reg.bare p).contains ent = true) :
+    (Td.removeEntity Td.Cfg.clean s p ent).reg.subs = s.reg.subs.filter (fun e => !(e.peer = p && e.cEnt = ent)) ∧
+    (Td.removeEntity Td.Cfg.clean s p ent).reg.binds = s.reg.binds.filter (fun e => !(e.peer = p && e.cEnt = ent)) ∧
+    (Td.removeEntity Td.Cfg.clean s p ent).pend = s.pend.filter (fun x => !Td.ofEntity p ent x) ∧
+    (Td.removeEntity Td.Cfg.clean s p ent).armed = s.armed.filter (fun x => !Td.ofEntity p ent x) ∧
+    (Td.removeEntity Td.Cfg.clean s p ent).csubs = s.csubs.filter (fun b => !(b.peer = p && b.ent = ent)) ∧
+    (Td.removeEntity Td.Cfg.clean s p ent).cbinds = s.cbinds.filter (fun b => !(b.peer = p && b.ent = ent)) :=
+  Td.removeEntity_bare_exact s p ent h0 hp hex hb
+
+/-- non-vacuity (registry model): peer 1 subscribes from [1]/1, announces [1] again without features (the entry stays,
+    a new request is refused), then as removed — the cascade `dropEntity` alone would leave the stale entry, the removal
+    entry and the device teardown both remove it -/
+example :
+    let s : Reg.St := { loc := [⟨[1], 1, 1, .server⟩], rem := fun _ => [⟨[1], 1, 1, .client⟩, ⟨[2], 1, 1, .client⟩] }
+    let s1 := Reg.bareEntity (Reg.addSub s 1 [1] 1 [1] 1 1).1 1 [1]
+    s1.subs.map Reg.key = [(1, [1], 1, [1], 1)] ∧ (Reg.addSub s1 1 [1] 1 [1] 1 1).2 = false ∧
+    (Reg.dropEntity Reg.Cfg.clean s1 1 [1]).subs.map Reg.key = [(1, [1], 1, [1], 1)] ∧
+    (Reg.removeEntity Reg.Cfg.clean s1 1 [1]).subs = [] ∧ (Reg.removePeer Reg.Cfg.clean s1 1).subs = [] :=
+  Reg.bare_entity_witness
 
 /-- Every member: the announcement of an entity the peer does not have changes nothing. -/
 theorem c10_entity_absent (c : Td.Cfg) (s : Td.St) (p : Nat) (ent : List Nat)
@@ -210,11 +255,11 @@ example : Reg.subsOf (Td.drop {} (Td.run {} s0 hist) 1).reg 2 ≠ [] ∧ (Td.dro
     of any number of teardowns is a history, and every history theorem (`C09.c09_at_most_one`, `C08.c08_ids_distinct`,
     `C08.c08_pairs_nodup_static`, …) covers it. -/
 theorem c10_teardown_is_passes (c : Reg.Cfg) (s : Reg.St) (p : Nat) :
-    let ents := (s.rem p).map (·.ent)
+    let ents := Reg.knownEnts s p
     let s1 := ents.foldl (fun s e => Reg.subsPass s p e) s
     let s2 := ents.foldl (fun s e => Reg.bindsPass c s p e) s1
-    (Reg.dropPeer c s p).subs = s2.subs ∧ (Reg.dropPeer c s p).binds = s2.binds :=
-  Reg.dropPeer_eq_passes c s p
+    (Reg.removePeer c s p).subs = s2.subs ∧ (Reg.removePeer c s p).binds = s2.binds :=
+  Reg.removePeer_eq_passes c s p
 
 /-- … and the removal of an entity is one subscription pass and one binding pass. -/
 theorem c10_entity_is_passes (c : Reg.Cfg) (s : Reg.St) (p : Nat) (ent : List Nat)
